@@ -98,6 +98,13 @@ def gen_cases(rng, tier):
             for c in _pair_ops(a2, b2) + ([_single_ops(a2)[0], _single_ops(a2)[3]]):
                 c["tag"] = "exh2-chr2"
                 cases.append(c)
+    # each table confined to ONE chromosome, the two chromosomes different (fast-path guard)
+    for a in rng.sample(A, 60 if tier == "quick" else len(A)):
+        for b in rng.sample(B, 8 if tier == "quick" else 20):
+            b2 = [["chr2"] + r[1:] for r in b]
+            for c in _pair_ops(a, b2) + _pair_ops(b2, a):
+                c["tag"] = "exh2-otherchrom"
+                cases.append(c)
     n_rand = 150 if tier == "quick" else 1500
     for _ in range(n_rand):
         chroms = rng.choice([("chr1",), ("chr1", "chr2"), ("chr1", "chr2", "chrX"), ("1", "10", "2", "X", "MT")])
